@@ -4,7 +4,7 @@
    src/expr/parser.rs by the correspondence stream and to its level table by C05_model_levels) reads every such
    text back as the same tree and consumes all of it.  Proof: Proofs/RoundTrip{Lex,Num,Levels,Spec,P,Main}.v. *)
 From Coq Require Import NArith List Bool Arith String.
-From CA Require Import Model.Lexer Model.Parser Spec.Grammar Spec.Printer Proofs.RoundTripMain.
+From CA Require Import Model.Lexer Model.Parser Spec.Grammar Spec.Printer Proofs.RoundTripMain Proofs.RoundTripDepth.
 Import ListNotations.
 Open Scope N_scope.
 
@@ -17,6 +17,17 @@ Proof. exact parse_full. Qed.
 Theorem C05_parse_print_min : forall e, wf_print e -> (depth_min e <= PARSE_DEPTH_MAX)%nat ->
   exists w, parse_text (print_min e) = POk e w /\ cur w = bytes_len (print_min e).
 Proof. exact parse_min. Qed.
+
+(* the depth hypotheses are the code's own recursion counter on the printed text; it is at most twice the height of
+   the tree, so both round trips hold for every printable tree of height <= 24 *)
+Theorem C05_print_depth : forall full e p, (p <= 16)%nat -> (pd full p e <= 2 * height e)%nat.
+Proof. exact pd_height. Qed.
+Theorem C05_parse_print_full_height : forall e, wf_print e -> (2 * height e < PARSE_DEPTH_MAX)%nat ->
+  exists w, parse_text (print_full e) = POk e w /\ cur w = bytes_len (print_full e).
+Proof. exact parse_full_height. Qed.
+Theorem C05_parse_print_min_height : forall e, wf_print e -> (2 * height e < PARSE_DEPTH_MAX)%nat ->
+  exists w, parse_text (print_min e) = POk e w /\ cur w = bytes_len (print_min e).
+Proof. exact parse_min_height. Qed.
 
 (* the printer's operator table IS the documented one (Spec/Grammar.documented_levels, transcribed from the wiki):
    operator o stands in the documented level number `binop_prec o` (assignment = 1 ... multiplication = 11), under
@@ -72,10 +83,12 @@ Proof.
   assert (H : Forall (fun e => wf_print e /\ (depth_min e <= PARSE_DEPTH_MAX)%nat /\ (depth_full e <= PARSE_DEPTH_MAX)%nat)
                      [ex1; ex2; ex3; ex4; ex5]).
   { repeat constructor; vm_compute; (reflexivity || (intro; discriminate)). }
-  repeat split; try (vm_compute; reflexivity).
-  - revert H. apply Forall_impl. intros e (Hw & Hm & Hf). repeat split; try assumption.
-    + apply C05_parse_print_min; assumption.
-    + apply C05_parse_print_full; assumption.
+  split; [vm_compute; reflexivity|]. split; [vm_compute; reflexivity|]. split; [vm_compute; reflexivity|].
+  split; [vm_compute; reflexivity|]. split; [vm_compute; reflexivity|]. split; [vm_compute; reflexivity|].
+  split; [|split].
+  - revert H. apply Forall_impl. intros e (Hw & Hm & Hf).
+    split; [exact Hw|]. split; [exact Hm|]. split; [exact Hf|].
+    split; [apply C05_parse_print_min; assumption | apply C05_parse_print_full; assumption].
   - inversion H as [|? ? (Hw & Hm & _) _]; subst. destruct (C05_parse_print_min ex1 Hw Hm) as (w & E & _).
     exists w. exact E.
   - inversion H as [|? ? _ H2]; subst. inversion H2 as [|? ? _ H3]; subst. inversion H3 as [|? ? (Hw & Hm & _) _]; subst.
